@@ -176,23 +176,36 @@ def partially_pruned(acc, rng):
     return b.end_cell()
 
 
+EXTRA = {}        # account id -> extra-currency dictionary cell of its balance (set by account_records for some accounts)
+
+
+def extra_currency_cell(rng):
+    hm = HashMap(32, value_serializer=lambda v, dest: dest.store_var_uint(v, 5))
+    for _ in range(rng.randint(1, 3)):
+        hm.set_int_key(rng.getrandbits(32), rng.randint(1, 10 ** 9))
+    return hm.serialize()
+
+
 def shard_accounts(rng, accts):
     """accts: list of (Address, account cell) -> ^ShardAccounts cell (HashmapAugE 256 ShardAccount DepthBalanceInfo)"""
     def ser(v, dest):
-        acc, lt = v
-        dest.store_uint(0, 5).store_coins(10 ** 9).store_bit(0)          # extra: DepthBalanceInfo
+        acc, lt, extra = v
+        dest.store_uint(0, 5).store_coins(10 ** 9)                       # extra: DepthBalanceInfo (split_depth, grams ...
+        if extra is None:
+            dest.store_bit(0)                                            # ... no other currencies)
+        else:
+            dest.store_bit(1).store_ref(extra)                           # ... other currencies: the leaf's FIRST reference
         dest.store_ref(acc).store_bytes(b'\x11' * 32).store_uint(lt, 64)  # value: ShardAccount
     hm = HashMap(256, value_serializer=ser)
     for a, c in accts:
-        hm.set_int_key(int.from_bytes(a.hash_part, 'big'), (c, rng.getrandbits(40)))
+        hm.set_int_key(int.from_bytes(a.hash_part, 'big'), (c, rng.getrandbits(40), EXTRA.get(a.hash_part)))
     root = hm.serialize()
     # canonical HashmapAug needs fork extras too: rebuild forks with an extra appended
     def fix(c, m):
-        # label length: parse label to know whether this is a fork (refs == 2) -> append extra bits
-        if len(c.refs) == 2:
-            s = c.begin_parse()
-            from pytoniq_core.boc.hashmap.parse import deserialize_hml
-            n, _ = deserialize_hml(s, m)
+        # parse the label: the node is a fork iff key bits remain after it -> append the fork's extra
+        from pytoniq_core.boc.hashmap.parse import deserialize_hml
+        n, _ = deserialize_hml(c.begin_parse(), m)
+        if m - n > 0:
             b = Builder().store_bits(c.bits).store_uint(0, 5).store_coins(10 ** 9).store_bit(0)
             b.store_ref(fix(c.refs[0], m - n - 1)).store_ref(fix(c.refs[1], m - n - 1))
             return b.end_cell()
@@ -220,6 +233,54 @@ def make_block(rng, state):
     block = (begin_cell().store_bytes(bytes.fromhex('11ef55aa')).store_int(-239, 32)
              .store_ref(kids[0]).store_ref(kids[1]).store_ref(upd).store_ref(kids[2]).end_cell())
     return block, kids, upd
+
+
+def deep_header_records(rng):
+    """block whose state update is only partly pruned in the block itself (its new-state side is an ordinary cell holding a
+    level-1 pruned branch and a subtree); the header proof prunes that subtree BELOW the Merkle update (level 2), so an
+    ordinary cell gets the children masks 1 and 2"""
+    out = []
+    sub = begin_cell().store_uint(rng.getrandbits(40), 40).store_ref(begin_cell().store_uint(rng.getrandbits(16), 16).end_cell()).end_cell()
+    part = begin_cell().store_uint(rng.getrandbits(24), 24).end_cell()
+    old_state = begin_cell().store_uint(rng.getrandbits(8), 8).end_cell()
+    kids = [begin_cell().store_uint(rng.getrandbits(32), 32).end_cell() for _ in range(3)]
+    order = rng.random() < 0.5
+
+    def new_side(s):
+        b = begin_cell().store_uint(5, 3)
+        for c in ((pruned(part), s) if order else (s, pruned(part))):
+            b.store_ref(c)
+        return b.end_cell()
+    upd = mupdate(pruned(old_state), new_side(sub))
+    block = (begin_cell().store_bytes(bytes.fromhex('11ef55aa')).store_int(-239, 32)
+             .store_ref(kids[0]).store_ref(kids[1]).store_ref(upd).store_ref(kids[2]).end_cell())
+    upd_p = mupdate(pruned(old_state), new_side(pruned(sub, 2)))
+    bp = (begin_cell().store_bits(block.bits).store_ref(pruned(kids[0])).store_ref(kids[1]).store_ref(upd_p).store_ref(pruned(kids[2])).end_cell())
+    for want, label, genuine in ((block.hash, 'genuine_header_pruned_below_update', True), (upd.hash, 'forged_wrong_block_hash', False)):
+        for store in (0, 1):
+            heap, roots, _ = ck.project([bp])
+            rec = {'op': 'header', 'label': label, 'genuine': int(genuine), 'cells': heap, 'root': roots[0], 'want': list(want)}
+            try:
+                r = check_block_header_proof(bp, want, bool(store))
+                rec['out'] = {'ok': 1}
+                if store:
+                    rec['out']['state'] = list(r)
+            except Exception as e:
+                rec['out'] = {'err': type(e).__name__}
+            out.append(rec)
+    # the same through the generic check: a Merkle proof cell over the pruned block
+    # (stored hash and depth are those of the ORIGINAL block, which is what a prover writes)
+    mp = Builder(type_=3).store_uint(3, 8).store_bytes(block.get_hash(0)).store_uint(block.get_depth(0), 16).store_ref(bp).end_cell()
+    heap, roots, _ = ck.project([mp])
+    for want, label, genuine in ((block.hash, 'genuine_proof_pruned_below_update', True), (bp.refs[1].hash, 'forged_wrong_expected_hash', False)):
+        rec = {'op': 'proof', 'label': label, 'genuine': int(genuine), 'cells': heap, 'proof': roots[0], 'want': list(want)}
+        try:
+            check_proof(mp, want)
+            rec['out'] = {'ok': 1}
+        except Exception as e:
+            rec['out'] = {'err': type(e).__name__}
+        out.append(rec)
+    return out
 
 
 def multi_boc(roots):
@@ -291,6 +352,10 @@ def account_records(rng):
         h0 = addrs[0].hash_part
         addrs[1] = Address((0, h0[:31] + bytes([h0[31] ^ 1])))
     accts = [(a, account_cell(rng, a)) for a in addrs]
+    EXTRA.clear()
+    for a in addrs:
+        if rng.random() < 0.5:            # this account's balance carries other currencies
+            EXTRA[a.hash_part] = extra_currency_cell(rng)
     state, outq, accounts, third = make_state(rng, accts)
     block, kids, upd = make_block(rng, state)
     state_p = begin_cell().store_bits(state.bits).store_ref(pruned(outq)).store_ref(accounts).store_ref(pruned(third)).end_cell()
@@ -313,6 +378,8 @@ def account_records(rng):
         ('forged_swapped_roots', False, [roots[1], roots[0]], blk, target, acc),
         ('forged_single_root', False, [roots[0]], blk, target, acc),
     ]
+    if target.hash_part in EXTRA:
+        cases.append(('forged_extra_currency_dict_as_account', False, roots, blk, target, EXTRA[target.hash_part]))
     pp = partially_pruned(acc, rng)
     if pp is not None:
         cases.append(('forged_partially_pruned_account', False, roots, blk, target, pp))
@@ -363,6 +430,8 @@ def generate(tier, seed, ctx):
                 out.append(r)
     for _ in range(1 if q else 20):
         out += header_records(rng)
+    for _ in range(3 if q else 60):
+        out += deep_header_records(rng)
     for _ in range(5 if q else 200):
         out += account_records(rng)
     return out
